@@ -31,7 +31,7 @@ ALLOCATIONS = [
      'assignments': [{'pattern': 'p1.web*', 'priority': 50}]},
     {'name': 't2', 'partition': 'part2',
      'memory': '2M', 'cpu': '2%', 'disk': '2M',
-     'rank': 50, 'rank_adjustment': 0, 'max_utilization': 2,
+     'rank': 0, 'rank_adjustment': 0, 'max_utilization': 2,
      'assignments': [{'pattern': 'p3.*', 'priority': 20}]},
 ]
 
@@ -44,7 +44,7 @@ TREES = {
                   [[0, 0, 0], 100, 0, None]]},
     'part2': {
         'paths': ['t2'],
-        'nodes': [[[2, 2, 2], 50, 0, 2]]},
+        'nodes': [[[2, 2, 2], 0, 0, 2]]},
 }
 
 # base name -> (partition, allocation path, assignment priority)
